@@ -170,7 +170,7 @@ class PackedHist : public Engine {
                 default: op.kind = "get"; op.set("i", r.below(cap)); break;
                 }
             }
-            if (mode == "sorted" && r.chance(1, 4)) op.set("bytes", 1); // the *Bytes form of the call, where it is defined
+            if (mode != "cells" && r.chance(1, 4)) op.set("bytes", 1); // the *Bytes form of the call, where it is defined
             p.ops.push_back(op);
         }
         return p;
@@ -307,7 +307,12 @@ class PackedHist : public Engine {
                         c.insert_sorted(st.base(), (uint32_t)len, v);
                 } else {
                     pos = (size_t)(op.u("pos") % (len + 1));
-                    c.insert(st.base(), (uint32_t)len, (uint32_t)pos, v);
+                    size_t nb = op.u("bytes") ? bytes_for_len(len, B) : 0;
+                    if (nb) {
+                        stat("op.bytes_form");
+                        c.insert_bytes(st.base(), nb, (uint32_t)pos, v);
+                    } else
+                        c.insert(st.base(), (uint32_t)len, (uint32_t)pos, v);
                 }
                 model.insert(model.begin() + (long)pos, v);
                 len++;
@@ -316,7 +321,12 @@ class PackedHist : public Engine {
             } else if (k == "delete") {
                 if (len == 0) continue;
                 size_t pos = (size_t)(op.u("pos") % len);
-                c.del(st.base(), (uint32_t)len, (uint32_t)pos);
+                size_t nb = op.u("bytes") ? bytes_for_len(len, B) : 0;
+                if (nb) {
+                    stat("op.bytes_form");
+                    c.del_bytes(st.base(), nb, (uint32_t)pos);
+                } else
+                    c.del(st.base(), (uint32_t)len, (uint32_t)pos);
                 model.erase(model.begin() + (long)pos);
                 len--;
                 for (size_t j = 0; j < len; j++) ref_set(img, j, B, model[j]);
